@@ -41,6 +41,14 @@ def needsNone (inp : List Fld) : Bool :=
   let offs := inp.foldl (fun (acc : List (Fld × Nat) × Nat) f => (acc.1 ++ [(f, acc.2)], acc.2 + f.size)) ([], 0)
   allAligned offs.1 && offs.2 % strictest offs.1 == 0
 
+/-- the size a C compiler gives the user's own member list (natural alignment, `Model/Layout.lean: cSizeof`): what an
+accepted definition ends up with (`C11.accepted_size_is_natural`), whichever padding fields were written or inserted -/
+def naturalSize (inp : List Fld) : Nat := cSizeof inp
+
+/-- "Definitions larger than 65535 bytes are rejected" read in both directions: a size error is justified exactly when
+the naturally aligned definition is larger than the limit -/
+def sizeErrorJustified (inp : List Fld) : Bool := decide (naturalSize inp > 65535)
+
 /-- input well-formedness: what the parser can actually produce as a field
     (native widths and struct alignments are 1, 2, 4 or 8 and divide the element size) -/
 def Fld.wf (f : Fld) : Bool :=
